@@ -144,17 +144,15 @@ theorem uniqD_rederep (h1 h2 h3 h4 : Seq → Nat) (o : OptsD) (xs ys : List Rec)
 /-- counterexample on one input: the descriptor `s:w` indexed by its attribute key `s` (`optionStatOnByKey`, not the
 code) — `Merge` tests `HasStatsOn("s")` on a record that carries `merged_s:w`, does not find it, and counts that
 record as one plain observation of its (absent) value with its (absent) weight: the weight 4 of `y` is lost.  Indexed
-by Name (`optionStatOn`, the code) the two maps are added: `y` ↦ 4, `x` ↦ weight of the first record + 3.
-(`natOfRendering "2"` is left symbolic: `String.toNat!` does not evaluate in the kernel.) -/
+by Name (`optionStatOn`, the code) the two maps are added: `y` ↦ 4, `x` ↦ 2 + 3. -/
 theorem statOn_by_key_loses_weights :
     optionStatOnByKey [] ["s:w"] = [("s", ⟨"s:w", "s", some "w"⟩)] ∧
     optionStatOn [] ["s:w"] = [("s:w", ⟨"s:w", "s", some "w"⟩)] ∧
     (mergeClassD "NA" (optionStatOnByKey [] ["s:w"]) [gR0, gTm]).map (fun o => mweight o "s:w" "y") = some 0 ∧
     (mergeClassD "NA" (optionStatOn [] ["s:w"]) [gR0, gTm]).map (fun o => mweight o "s:w" "y") = some 4 ∧
     (mergeClassD "NA" (optionStatOn [] ["s:w"]) [gR0, gTm]).map (fun o => mweight o "s:w" "x") =
-      some (natOfRendering "2" + 3) := by
-  refine ⟨by decide, by decide, by decide, by decide, ?_⟩
-  rfl
+      some 5 := by
+  refine ⟨by decide, by decide, by decide, by decide, by decide⟩
 
 /-- the same counterexample with the weight read from `count` (every number evaluated): indexed by key the already
 merged record (count 7, `x` ↦ 3, `y` ↦ 4) is counted as 7 observations of `NA`; indexed by Name `x` ↦ 2 + 3, `y` ↦ 4 -/
